@@ -5,6 +5,7 @@ over-deliver or fail, with a per-circuit shot ledger (every circuit prepares its
 basis state, so each shot is attributable); distribution-representing measurements under
 a simulated/adversarial RNG; scale-and-discretise.
 """
+import copy
 import random
 from collections import Counter
 
@@ -39,7 +40,7 @@ class World:
     ]
     PROBES_EXPECTED = ["expand-multi-copy", "expand-exact-multiple", "expand-max-1", "batches-multi", "batch-uneven-last", "over-delivery",
                        "peer-fault", "represent-topup", "represent-eliminate", "represent-exact", "discretise", "combine-counts", "combine-bitstrings",
-                       "single-circuit", "adversarial-rng"]
+                       "single-circuit", "adversarial-rng", "combine-aliased-records"]
 
     def gen_plan(self, seed, tier):
         r = random.Random(seed)
@@ -65,7 +66,7 @@ class World:
                 mx = r.choice([1, 2, 3, 5, 10, 16, 100])
                 circs = [[r.randint(0, 1) for _ in range(n)] for _ in range(k)]
                 a = {"circs": circs, "shots": [shots_for(mx) for _ in range(k)], "max": mx if op == "expand" else r.choice([1, 2, 3, 4, 10, 0, -1]),
-                     "via": r.choice(["counts", "bitstrings"]), "batchrun": r.random() < 0.5}
+                     "via": r.choice(["counts", "bitstrings"]), "batchrun": r.random() < 0.5, "memo": r.random() < 0.35}
                 s = {"op": op, "args": a}
                 if cfg["faults"] != "none" and r.random() < 0.15:
                     s["fault"] = {"kind": "peer", "at": r.randrange(0, 5)}
@@ -173,14 +174,31 @@ class World:
         delivered = [len(m.bitstrings) for m in ms]
         if any(d > k for d, k in zip(delivered, new_n)):
             ctx.probe("over-delivery")
-        if a["via"] == "counts":
-            ok, comb = call(combine_measurement_counts, [m.get_counts() for m in ms], mult)
-            ctx.probe("combine-counts")
-        else:
-            ok, comb = call(combine_bitstrings, [convert_tuples_to_bitstrings(m.bitstrings) for m in ms], mult)
-            ctx.probe("combine-bitstrings")
+        # per-copy records handed to combine_*; a memoising caller (legal: identical copies of a deterministic
+        # circuit give identical records) hands the *same* object for identical copies
+        memo = {}
+
+        def record(c, k, m):
+            rec = m.get_counts() if a["via"] == "counts" else convert_tuples_to_bitstrings(m.bitstrings)
+            if a.get("memo"):
+                return memo.setdefault((id(c), k, len(m.bitstrings)), rec)
+            return rec
+
+        per_copy = [record(c, k, m) for c, k, m in zip(new_c, new_n, ms)]
+        if a.get("memo") and len({id(x) for x in per_copy}) < len(per_copy):
+            ctx.probe("combine-aliased-records")
+        before = copy.deepcopy(per_copy)
+        fn = combine_measurement_counts if a["via"] == "counts" else combine_bitstrings
+        ctx.probe("combine-counts" if a["via"] == "counts" else "combine-bitstrings")
+        ok, comb = call(fn, per_copy, mult)
         ctx.called("combine_*")
         ctx.check(ok, "unexpected-reject", "combine", lambda: f"combine raised {type(comb).__name__}: {comb}")
+        ctx.check(per_copy == before, "conservation", "combine-changed-its-input",
+                  lambda: f"combining changed the per-copy records it was given: {before} -> {per_copy} (multiplicities {mult})")
+        ok2, comb2 = call(fn, per_copy, mult)
+        ctx.check(ok2 and [dict(Counter(x)) if a["via"] != "counts" else dict(x) for x in comb2]
+                  == [dict(Counter(x)) if a["via"] != "counts" else dict(x) for x in comb], "conservation", "combine-not-repeatable",
+                  lambda: f"combining the same records twice gave {comb} and then {comb2}")
         with judge(ctx):
             ctx.check(len(comb) == len(circs), "conservation", "combined-length", f"{len(comb)} combined results for {len(circs)} circuits")
             pos = 0
